@@ -3,10 +3,15 @@
 Monitors (P = postcondition on the real function, fires on internal calls too)
   origin_to             (P) Point.origin_to: the first row of the row matrix (image
                         of the origin) is a multiple of the point; forced
-                        orientation gives det > 0.
+                        orientation gives det > 0; the matrix is in O(n,1).
   tangent-origin_to     (P) TangentVector.origin_to: rows 0/1 are multiples of
-                        (basepoint, tangent vector) with scalars of equal sign.
-  isometry_to           (P) TangentVector.isometry_to: (p, v) @ I = (l q, m w), l m > 0.
+                        (basepoint, tangent vector) with scalars of equal sign;
+                        the matrix is in O(n,1).
+  isometry_to           (P) TangentVector.isometry_to: (p, v) @ I = (l q, m w), l m > 0;
+                        I is in O(n,1).
+  normalized            (P) TangentVector.normalized: same basepoint, Minkowski
+                        length 1, positive multiple of the tangent component --
+                        for vectors of any length.
   point_along           (P) TangentVector.point_along: result = exp_p(t v) of the
                         reference (hyperboloid, positive time); hyp_to_affine_dist = tanh.
   unit_tangent_towards  (P) basepoint kept, unit, direction = reference direction.
@@ -26,7 +31,14 @@ Monitors (P = postcondition on the real function, fires on internal calls too)
   law-of-cosines        (W) angle at p of the triangle p,q,r from the library's
                         tangents == law of cosines with reference side lengths.
   polygon               (W) the polygon read through get_vertices()/coords; radius
-                        and angle formulas are mutual inverses.
+                        and angle formulas are mutual inverses; every n in 3..402
+                        (quick) / 3..1202 and samples up to 3000 (thorough): n
+                        vertices, none twice, equal sides, interior angle.
+Input classes added by the third seeding round: tangent vectors of Minkowski
+length 1e-9..1e-3 and 1e3..1e9 (alone or mixed in one composite) and targets of
+unit_tangent_towards 1e-9..1e-3 away, each followed by macroscopic requests
+(wl_tangent_scales, wl_towards_close; C13-r3-1); the n-sweep (wl_polygon_sweep;
+C13-r3-3).
 """
 import math
 import traceback
@@ -43,12 +55,18 @@ RULE = ("cases = (dimension 2..5, composite shape in {(), (k,), (a,b), (a,1,c)},
         "in {default, True, False}, t in {0, +-[1e-6,1e-2], +-[0.1,3], +-[3,6]} scalar "
         "or per unit, polygon (n in 3..24, angle fraction in {5%, 95%, U(2%,98%)} of "
         "(n-2)pi/n or radius in [0.05,6], dimension 2..5, scalar or composite "
-        "parameter)); non-trivial = the point is not the origin / t != 0 / the "
+        "parameter), polygon n-sweep (every n in 3..402 quick / 3..1202 + 48 draws "
+        "from 1203..3000 thorough, radius and angle path), tangent vector length "
+        "class {ordinary [0.2,5], tiny [1e-9,1e-6], small [1e-6,1e-3], huge "
+        "[1e3,1e9], mixed per unit} given as data, target of unit_tangent_towards "
+        "at distance [1e-9,1e-3] followed by |t| in [0.3,3]); non-trivial = the point is not the origin / t != 0 / the "
         "triangle is non-degenerate (sin A >= 1e-3, sides >= 0.05); distinct = "
         "distinct (check, dimension, shape kind, class, option) signatures.  "
         "Residuals: hyperbolic distance between obtained and expected point, "
         "relative Euclidean deviation from a multiple for vectors; tolerance "
-        "1e-7 + 1e-11/(1-r_max) (points), 1e-9 + 1e-12/(1-r_max) (vectors)")
+        "1e-7 + 1e-11/(1-r_max) (points), 1e-9 + 1e-12/(1-r_max) (vectors), "
+        "1e-9 + 1e-11/(1-r) (|M^T J M - J|/max(1,|M|^2), product of the two 1-r for "
+        "isometry_to); direction towards a point at distance d: + 1e-11/((1-r) d)")
 ASSUMPTIONS = [
     "representatives with positive time coordinate only (negative "
     "representatives and rescaling belong to C12)",
@@ -57,6 +75,10 @@ ASSUMPTIONS = [
     "angles within [1e-3, 1-1e-3] of the admissible range, |t| <= 6, radii <= 7",
     "a tangent vector is compared up to a positive scalar together with the "
     "sign of its basepoint representative",
+    "short / long tangent vectors are given as floating-point data (direction "
+    "defined to ~eps/(1-r)); the direction towards a point at distance d < 1e-6 "
+    "is judged only where eps/((1-r) d) <= 1e-5, down to d = 1e-9",
+    "n-sweep: n <= 3000 (the library's construction is quadratic in n)",
 ]
 ANCHORS = [("geometry_tools/hyperbolic.py", q) for q in (
     "Point.origin_to", "Point.unit_tangent_towards", "Point.get_origin",
@@ -74,6 +96,7 @@ REQUIRED = [
     ("geometry_tools/hyperbolic.py", "Point.origin_to", "isom = utils.find_isometry("),
     ("geometry_tools/hyperbolic.py", "TangentVector.origin_to", "isom = utils.find_isometry("),
     ("geometry_tools/hyperbolic.py", "TangentVector.isometry_to", "return other.origin_to("),
+    ("geometry_tools/hyperbolic.py", "TangentVector.normalized", "normed_vec = utils.normalize("),
     ("geometry_tools/hyperbolic.py", "TangentVector.point_along", "kleinian_pt[..., 0] = hyp_to_affine_dist("),
     ("geometry_tools/hyperbolic.py", "TangentVector.angle", "return np.arccos("),
     ("geometry_tools/hyperbolic.py", "Point.unit_tangent_towards", "diff = orientation * other.proj_data"),
@@ -85,6 +108,7 @@ REQUIRED = [
 
 SHAPE_KINDS = ("()", "(k,)", "(a,b)", "(a,1,c)")
 VEC_TOL = 1e-9
+ISO_TOL = 1e-9
 
 
 def rand_shape(rng, kind):
@@ -112,6 +136,9 @@ def worst(err, tol, ok=None):
     return int(idx[int(np.argmax(e / tol[idx]))])
 
 
+RATIOS = None          # debugging aid: set to {} to record max residual/tolerance per key
+
+
 def judge_rows(mon, err, tol, ok, key, what, case_of):
     err = np.asarray(err, dtype=float).reshape(-1)
     tol = np.asarray(tol, dtype=float)
@@ -119,6 +146,8 @@ def judge_rows(mon, err, tol, ok, key, what, case_of):
     w = worst(err, tol, ok)
     if w is None:
         return None
+    if RATIOS is not None:
+        RATIOS[key] = max(RATIOS.get(key, 0.0), float(err[w] / tol[w]))
     return mon.judge(err[w], tol[w], key, what, case_of(w))
 
 
@@ -142,6 +171,31 @@ def klein_of(P):
     P = np.asarray(P, dtype=float)
     with np.errstate(all="ignore"):
         return P[..., 1:] / P[..., :1]
+
+
+def iso_tol(omr):
+    """tolerance for isometry_defect: normalising a point at 1 - (Klein radius)
+    = omr to <h,h> = -1 has relative accuracy eps/omr (pinned tree: defect <=
+    1.5e-15/omr for origin_to, <= 1.3e-15/(omr_p omr_q) for isometry_to, all
+    dimensions, omr down to 1e-8)."""
+    return ISO_TOL + 1e-11 / np.maximum(np.asarray(omr, dtype=float), 1e-300)
+
+
+def isometry_defect(M):
+    """max |M^T J M - J| / max(1, max|M|^2): how far the matrices are from
+    O(n,1) (reference form of ref/hyp.py; the same number for the row and the
+    column convention)."""
+    with np.errstate(all="ignore"):
+        return rh.form_residual(np.asarray(M, dtype=float))
+
+
+def judge_isometry(mon, Mf, tol, ok, key, what, case_of):
+    """'the isometry built from ...' is an isometry: membership in O(n,1).
+    (C13-r3-1: a frame whose second row is an un-normalised 1e-7-long tangent
+    vector still sends the origin to p and e_1 to a positive multiple of v --
+    the two things the other checks look at -- but is not an isometry: every
+    point off the basepoint is sent to the wrong place.)"""
+    return judge_rows(mon, isometry_defect(Mf), tol, ok, key, what, case_of)
 
 
 # ---------------------------------------------------------------------------
@@ -183,6 +237,7 @@ def setup(run):
     m_o = run.monitor("origin_to", min_events=50)
     m_to = run.monitor("tangent-origin_to", min_events=50)
     m_iso = run.monitor("isometry_to", min_events=30)
+    m_nm = run.monitor("normalized", min_events=50)
     m_pa = run.monitor("point_along", min_events=50)
     m_ut = run.monitor("unit_tangent_towards", min_events=30)
     m_an = run.monitor("angle", min_events=30)
@@ -227,6 +282,10 @@ def setup(run):
                    "(relative deviation of the first row)",
                    lambda w: {"point": x[w], "first_row": Mf[w, 0], "force_oriented": fo,
                               "ambient": amb()})
+        judge_isometry(m_o, Mf, iso_tol(r2.one_minus_r_proj(x)), ok, "origin_to/not-an-isometry",
+                       "p.origin_to() is not in O(n,1) (|M^T J M - J| / max(1,|M|^2))",
+                       lambda w: {"point": x[w], "matrix": Mf[w], "force_oriented": fo,
+                                  "ambient": amb()})
         if fo:
             pos = ok & (x[:, 0] > 0)
             if pos.any():
@@ -277,6 +336,10 @@ def setup(run):
         judge_rows(m_to, r1, vec_tol(omr), ok, "tangent-origin_to/direction",
                    "tv.origin_to() does not send the base tangent vector e_1 to a multiple of "
                    "the tangent vector", case_of)
+        judge_isometry(m_to, Mf, iso_tol(omr), ok, "tangent-origin_to/not-an-isometry",
+                       "tv.origin_to() is not in O(n,1) (|M^T J M - J| / max(1,|M|^2))",
+                       lambda w: dict(case_of(w), matrix=Mf[w],
+                                      vector_length=float(np.sqrt(abs(rh.mink_sq(v[w]))))))
         sgn = ok & np.isfinite(l0 * l1) & ~(l0 * l1 > 0)
         if sgn.any():
             w = int(np.flatnonzero(sgn)[0])
@@ -299,6 +362,62 @@ def setup(run):
                     m_to.ok()
 
     attach.wrap_attr(run, H.TangentVector, "origin_to", to_post, pre=to_pre)
+
+    # -- TangentVector.normalized ---------------------------------------------------
+    # every "unit tangent vector" of the property comes out of normalized()
+    # (unit_tangent_towards, regular_polygon, the callers' own vectors): same
+    # basepoint, Minkowski length 1, positive multiple of the tangent vector --
+    # whatever the length of the vector handed in (C13-r3-1: vectors shorter
+    # than 1e-6 returned unchanged).  The state is copied before the call:
+    # normalize() divides the caller's aux_data in place.
+    def nm_post(call, aux):
+        if call.exc is not None or aux is None:
+            return
+        try:
+            out = np.asarray(call.result.aux_data, dtype=float)
+        except Exception:
+            return m_nm.skip("result carries no real tangent data")
+        if out.shape != aux.shape:
+            return m_nm.fail("normalized/shape", "tangent data of shape %r from data of shape %r"
+                             % (out.shape, aux.shape), {"tangent": aux, "ambient": amb()})
+        a = flat(aux, 2)
+        b = flat(out, 2)
+        p, v, bp, nv = a[:, 0], a[:, 1], b[:, 0], b[:, 1]
+        ok = r2.interior_mask(p, 1e-9) & spacelike_mask(v)
+        if (~ok).any():
+            m_nm.skip("basepoint not interior or vector not spacelike (with margin)")
+        if not ok.any():
+            return
+        omr = r2.one_minus_r_proj(p)
+        with np.errstate(all="ignore"):
+            length = np.sqrt(np.abs(rh.mink_sq(v)))
+            unit_err = np.abs(rh.mink_sq(nv) - 1.0) / np.sum(nv * nv, axis=-1)
+            rb, lb = r2.proj_residual(bp, p)
+            # direction = that of the component of v tangent at p: the vector
+            # held by a TangentVector is tangent only up to the rounding of the
+            # projection that made it (absolute ~eps |input|: for the 1e-9-long
+            # difference of two nearby points in unit_tangent_towards, 1e-7
+            # relative); normalized() projects again, and that second projection
+            # is accurate to eps/omr relative
+            rv, lv = r2.proj_residual(nv, rh.tangent_project(p, v))
+        case_of = lambda w: {"basepoint": p[w], "vector": v[w], "vector_length": length[w],
+                             "returned_basepoint": bp[w], "returned_vector": nv[w], "ambient": amb()}
+        judge_rows(m_nm, rb, VEC_TOL, ok, "normalized/basepoint",
+                   "tv.normalized() is not based at the basepoint of tv", case_of)
+        judge_rows(m_nm, unit_err, vec_tol(omr), ok, "normalized/unit-length",
+                   "tv.normalized() is not of unit Minkowski length (|<v,v> - 1| / |v|^2)", case_of)
+        judge_rows(m_nm, rv, vec_tol(omr), ok, "normalized/direction",
+                   "tv.normalized() is not a multiple of the (tangent component of the) vector of tv",
+                   case_of)
+        sgn = ok & np.isfinite(lb * lv) & ~(lb * lv > 0)
+        if sgn.any():
+            w = int(np.flatnonzero(sgn)[0])
+            m_nm.fail("normalized/direction-sign", "tv.normalized() points the other way "
+                      "(scalars %r, %r)" % (lb[w], lv[w]), case_of(w))
+        else:
+            m_nm.ok()
+
+    attach.wrap_attr(run, H.TangentVector, "normalized", nm_post, pre=to_pre)
 
     # -- TangentVector.isometry_to ------------------------------------------------
     def iso_pre(call):
@@ -339,6 +458,9 @@ def setup(run):
         judge_rows(m_iso, rv, vec_tol(omr), ok, "isometry_to/direction",
                    "tv.isometry_to(tv2) does not carry the direction of tv to a multiple of "
                    "that of tv2", case_of)
+        judge_isometry(m_iso, If, iso_tol(r2.one_minus_r_proj(p) * r2.one_minus_r_proj(q)), ok, "isometry_to/not-an-isometry",
+                       "tv.isometry_to(tv2) is not in O(n,1) (|I^T J I - J| / max(1,|I|^2))",
+                       lambda k: dict(case_of(k), matrix=If[k]))
         sgn = ok & np.isfinite(lp * lv) & ~(lp * lv > 0)
         if sgn.any():
             k = int(np.flatnonzero(sgn)[0])
@@ -445,7 +567,12 @@ def setup(run):
         with np.errstate(all="ignore"):
             d = r2.dist_proj_ref(p, q)
             omr = np.minimum(r2.one_minus_r_proj(p), r2.one_minus_r_proj(q))
-        sep = ok & (d >= 1e-6) & (omr >= 1e-9)
+        # separated enough for the direction to be defined by the data: the
+        # tangent component of q - p is known up to ~eps/omr, so relative to its
+        # length d up to eps/(omr d).  d >= 1e-6 as before, and below that down to
+        # 1e-9 as long as eps/(omr d) <= 1e-5  (C13-r3-1: targets closer than
+        # ~5e-7 gave an un-normalised vector)
+        sep = ok & (omr >= 1e-9) & ((d >= 1e-6) | ((d >= 1e-9) & (d * omr >= 1e-11)))
         if (ok & ~sep).any():
             m_ut.skip("target (nearly) coincides with the basepoint: direction undefined")
         if not sep.any():
@@ -818,6 +945,231 @@ def wl_tangent(run, rng, idx):
         run.sample({"check": "tangent", "dimension": d, "shape": list(shape), "p": Pp, "v": vp})
 
 
+# ---------------------------------------------------------------------------
+# tangent vectors of extreme length, followed by macroscopic requests
+# (third seeding round, C13-r3-1)
+
+SCALE_CLASSES = ("tiny", "small", "huge", "mixed")
+SCALE_RANGE = {"tiny": (1e-9, 1e-6), "small": (1e-6, 1e-3), "huge": (1e3, 1e9),
+               "ordinary": (0.2, 5.0)}
+
+
+def rand_lengths(rng, shape, scls):
+    """Minkowski lengths of a scale class, log-uniform; 'mixed': the class is
+    drawn per unit (a composite holding a 1e-8-long vector next to an ordinary
+    and a 1e6-long one)."""
+    shape = tuple(shape)
+    if scls == "mixed":
+        names = ("tiny", "small", "huge", "ordinary")
+        pick = rng.integers(0, 4, size=shape)
+        lo = np.array([SCALE_RANGE[k][0] for k in names])[pick]
+        hi = np.array([SCALE_RANGE[k][1] for k in names])[pick]
+    else:
+        lo, hi = SCALE_RANGE[scls]
+    return np.exp(rng.uniform(np.log(lo), np.log(hi), size=shape))
+
+
+def rand_scaled_tangent(rng, P, scls, vcls):
+    """(w, v, L): v = L w with w a unit tangent at the positive hyperboloid
+    representative of P and L of the scale class ('non-tangent': plus L c h,
+    |c| <= 1, which the library must project away).  The direction of v is
+    defined by the floating-point data v itself to ~eps/omr whatever L is:
+    multiplying by L costs one rounding per coordinate.  w is recomputed from v
+    so that the reference answers for the data the library was given."""
+    w0, _ = rand_tangent(rng, P, "tangent")
+    L = rand_lengths(rng, w0.shape[:-1], scls)
+    v = w0 * L[..., None]
+    h = rh.hyperboloid_pos(P)
+    if vcls == "non-tangent":
+        v = v + h * (L * rng.uniform(-1.0, 1.0, size=L.shape))[..., None]
+    w = rh.tangent_project(h, v)
+    w = w / np.sqrt(rh.mink_sq(w))[..., None]
+    return w, v, L
+
+
+def wl_tangent_scales(run, rng, idx):
+    """The property quantifies over tangent vectors, not over unit ones: the
+    isometries built from (p, v) and the unit vector normalized() returns may not
+    depend on the length of v.  Vectors of Minkowski length 1e-9..1e-3 and
+    1e3..1e9 (given as data, so their direction is well defined), alone or mixed
+    in one composite, each followed by a *macroscopic* request:
+      normalized() -> unit (postcondition) -> point_along(t), |t| in [0.3,3]: at
+        distance |t| from the basepoint, = exp_p(t w);
+      origin_to() in O(n,1) (postcondition), sends the base tangent to (p, +w) and
+        the point at arc length s on the base geodesic to exp_p(s w);
+      isometry_to between it and a vector of another scale, both ways: (p,v) ->
+        (q,w2) and exp_p(t w) -> exp_q(t w2) for reference points.
+    C13-r3-1 (normalize() leaving vectors shorter than 1e-6 alone) passes every
+    up-to-a-scalar comparison; only these requests see it."""
+    from geometry_tools.hyperbolic import Point, TangentVector
+    mon = run.monitor("hit-target")
+    geo = run.monitor("geodesic")
+    scls = SCALE_CLASSES[idx % 4]
+    d = 2 + (idx // 4) % 4
+    kind = SHAPE_KINDS[(idx // 16) % 4] if scls != "mixed" else SHAPE_KINDS[1 + (idx // 16) % 3]
+    cls = CLASSES[(idx // 2) % 3]
+    fo = FO[(idx // 3) % 3]
+    vcls = ("tangent", "non-tangent")[(idx // 8) % 2]
+    other = ("ordinary", "huge" if scls in ("tiny", "small") else "tiny", "mixed")[(idx // 5) % 3]
+    shape = rand_shape(rng, kind)
+    if scls == "mixed" and int(np.prod(shape)) < 2:
+        shape = (3,)
+    kp = gen_points(rng, d, shape, cls)
+    kq = gen_points(rng, d, shape, "bulk")
+    Pp = rh.klein_to_proj(kp) * np.exp(rng.uniform(-1, 1, size=tuple(shape) + (1,)))
+    Pq = rh.klein_to_proj(kq)
+    wp, vp, Lp = rand_scaled_tangent(rng, Pp, scls, vcls)
+    wq, vq, Lq = rand_scaled_tangent(rng, Pq, other, "tangent")
+    case = {"dimension": d, "shape": list(shape), "class": cls, "force_oriented": fo,
+            "vector_class": vcls, "scale_class": scls, "other_scale_class": other,
+            "p": Pp, "v": vp, "length_v": Lp, "q": Pq, "w": vq, "length_w": Lq}
+    run.current_case = case
+    # fresh objects for every request: normalized() / origin_to() renormalise the
+    # caller's data in place, and a request must not live on the previous one
+    mk = lambda: TangentVector(Point(Pp.copy()), vp.copy())
+    mk2 = lambda: TangentVector(Point(Pq.copy()), vq.copy())
+    omr_p = r2.one_minus_r_klein(kp)
+    omr_q = r2.one_minus_r_klein(kq)
+    both = np.minimum(omr_p, omr_q)
+    tag = "/vector-length:" + scls
+
+    # (1) normalized(), then a walk of macroscopic length
+    t = rng.uniform(0.3, 3.0, size=tuple(shape)) * rng.choice([-1.0, 1.0], size=tuple(shape))
+    if cls == "mid":
+        t = np.clip(t, -2.0, 2.0)
+    u = mk().normalized()
+    tangent_compare(mon, "hit-target/normalized" + tag,
+                    "tv.normalized() is not (basepoint, direction) of tv", u, kp, wp, omr_p, case)
+    uv = flat(np.asarray(u.vector, dtype=float))
+    with np.errstate(all="ignore"):
+        unit_err = np.abs(rh.mink_sq(uv) - 1.0) / np.sum(uv * uv, axis=-1)
+    judge_rows(geo, unit_err, vec_tol(omr_p), None, "geodesic/normalized/unit-length" + tag,
+               "tv.normalized().vector is not of unit Minkowski length",
+               lambda w: dict(case, row=w, returned_vector=uv[w]))
+    X = u.point_along(t)
+    xk = np.asarray(X.coords("klein"), dtype=float)
+    if geo.require(xk.shape == kp.shape, "geodesic/point_along/shape",
+                   "point_along gives Klein shape %r for a composite of shape %r" % (xk.shape, shape),
+                   case):
+        ct = r2.coord_tol(r2.omr_far(omr_p, t))
+        dd = r2.dist_klein_ref(xk, kp)
+        judge_rows(geo, np.abs(dd - np.abs(t)), ct, None, "geodesic/point_along/distance" + tag,
+                   "tv.normalized().point_along(t) is not at reference distance |t| from the "
+                   "basepoint", lambda w: dict(case, row=w, t_row=np.reshape(t, -1)[w],
+                                               distance=np.reshape(dd, -1)[w]))
+        exp = rh.exp_map(Pp, wp, t)
+        judge_rows(geo, r2.dist_klein_ref(xk, exp), ct, None, "geodesic/point_along/position" + tag,
+                   "tv.normalized().point_along(t) is not the point at signed arc length t on the "
+                   "geodesic of tv", lambda w: dict(case, row=w, t_row=np.reshape(t, -1)[w],
+                                                     klein=flat(xk)[w], expected=flat(exp)[w]))
+
+    # (2) origin_to(): base tangent -> (p, +w); base geodesic -> geodesic of tv,
+    # arc length kept (the isometry itself is judged by the postcondition)
+    T = mk().origin_to(**fo_kwargs(fo))
+    bt = base_tangent(run, mon, d, shape, case)
+    tangent_compare(mon, "hit-target/tangent-origin_to" + tag,
+                    "tv.origin_to() @ base_tangent is not a positive multiple of tv",
+                    T @ bt, kp, wp, omr_p, case)
+    s_ = rng.uniform(0.3, 2.0, size=tuple(shape)) * rng.choice([-1.0, 1.0], size=tuple(shape))
+    base = np.zeros(tuple(shape) + (d,))
+    base[..., 0] = np.tanh(s_)
+    yk = np.asarray((T @ Point(base, model="klein")).coords("klein"), dtype=float)
+    exp = rh.exp_map(Pp, wp, s_)
+    judge_rows(mon, r2.dist_klein_ref(yk, exp), r2.coord_tol(r2.omr_far(omr_p, s_)), None,
+               "hit-target/tangent-origin_to/along-geodesic" + tag,
+               "tv.origin_to() does not carry the point at arc length s on the base geodesic to "
+               "the point at arc length s along tv",
+               lambda w: dict(case, row=w, s=np.reshape(s_, -1)[w], image_klein=flat(yk)[w],
+                              expected_klein=flat(exp)[w]))
+
+    # (3) isometry_to, both ways, judged on reference points of the geodesics
+    t3 = rng.uniform(-2.0, 2.0, size=tuple(shape))
+    on_p = rh.exp_map(Pp, wp, t3)
+    on_q = rh.exp_map(Pq, wq, t3)
+    omr3 = np.minimum(r2.omr_far(omr_p, t3), r2.omr_far(omr_q, t3))
+    for name, a, b, src, dst, kd, wd in (("to-other", mk, mk2, on_p, on_q, kq, wq),
+                                         ("from-other", mk2, mk, on_q, on_p, kp, wp)):
+        I = a().isometry_to(b(), **fo_kwargs(fo))
+        tangent_compare(mon, "hit-target/isometry_to/" + name + tag,
+                        "tv.isometry_to(tv2) @ tv is not (basepoint, direction) of tv2",
+                        I @ a(), kd, wd, both, case)
+        mk_ = np.asarray((I @ Point(src.copy(), model="klein")).coords("klein"), dtype=float)
+        judge_rows(mon, r2.dist_klein_ref(mk_, dst), r2.coord_tol(omr3), None,
+                   "hit-target/isometry_to/along-geodesic/" + name + tag,
+                   "tv.isometry_to(tv2) does not carry the point at arc length t on tv's geodesic "
+                   "to the point at arc length t on tv2's",
+                   lambda w: dict(case, row=w, direction=name, t=np.reshape(t3, -1)[w],
+                                  image_klein=flat(mk_)[w], expected_klein=flat(dst)[w]))
+    run.note_class("tangent-scales", d, kind, cls, fo, vcls, scls, other)
+    if idx < 2:
+        run.sample({"check": "tangent-scales", "dimension": d, "scale_class": scls, "p": Pp, "v": vp})
+
+
+CLOSE = ("tiny", "small")
+
+
+def wl_towards_close(run, rng, idx):
+    """unit_tangent_towards a point 1e-9..1e-3 away (the difference the library
+    normalises is that short), then a walk of macroscopic length.  Walking only
+    d(p,q) would hide an un-normalised vector: the landing error is of the order
+    of d(p,q) itself (C13-r3-1).  q = exp_p(dd w) for a known unit w, so the
+    direction is known up to the rounding of q's coordinates, an angle of
+    ~eps/(omr dd): distance |t| from p is demanded at the usual tolerance,
+    position at that tolerance + sinh|t| 1e-11/(omr dd)."""
+    from geometry_tools.hyperbolic import Point, TangentVector
+    mon = run.monitor("geodesic")
+    ccls = CLOSE[idx % 2]
+    d = 2 + (idx // 2) % 4
+    kind = SHAPE_KINDS[(idx // 8) % 4]
+    shape = rand_shape(rng, kind)
+    kp = gen_points(rng, d, shape, "bulk")
+    Pp0 = rh.klein_to_proj(kp)
+    w0, _ = rand_tangent(rng, Pp0)
+    lo, hi = SCALE_RANGE[ccls]
+    dd = np.exp(rng.uniform(np.log(lo), np.log(hi), size=tuple(shape)))
+    kq = rh.exp_map(Pp0, w0, dd)
+    case = {"dimension": d, "shape": list(shape), "pair_class": "close-" + ccls, "klein_p": kp,
+            "klein_q": kq, "separation": dd}
+    run.current_case = case
+    P, mp = lib_point(kp, rng)
+    Q, mq = lib_point(kq, rng)
+    case["models"] = [mp, mq]
+    omr_p = r2.one_minus_r_klein(kp)
+    u = P.unit_tangent_towards(Q)                 # judged by the postcondition
+    tag = "/close-" + ccls
+    t = rng.uniform(0.3, 3.0, size=tuple(shape)) * rng.choice([-1.0, 1.0], size=tuple(shape))
+    xk = np.asarray(u.point_along(t).coords("klein"), dtype=float)
+    if not mon.require(xk.shape == kp.shape, "geodesic/point_along/shape",
+                       "point_along gives Klein shape %r for a composite of shape %r" % (xk.shape, shape),
+                       case):
+        return
+    ct = r2.coord_tol(r2.omr_far(omr_p, t))
+    dist = r2.dist_klein_ref(xk, kp)
+    judge_rows(mon, np.abs(dist - np.abs(t)), ct, None, "geodesic/towards/distance" + tag,
+               "p.unit_tangent_towards(q).point_along(t) is not at reference distance |t| from p",
+               lambda w: dict(case, row=w, t_row=np.reshape(t, -1)[w], distance=np.reshape(dist, -1)[w]))
+    exp = rh.exp_map(Pp0, w0, t)
+    theta = 1e-11 / (omr_p * dd)
+    judge_rows(mon, r2.dist_klein_ref(xk, exp), ct + np.sinh(np.abs(t)) * theta, None,
+               "geodesic/towards/position" + tag,
+               "p.unit_tangent_towards(q).point_along(t) is not on the geodesic from p through q at "
+               "signed arc length t",
+               lambda w: dict(case, row=w, t_row=np.reshape(t, -1)[w], klein=flat(xk)[w],
+                              expected=flat(exp)[w]))
+    # ... and the isometry to an ordinary tangent vector carries p to its basepoint
+    kq2 = gen_points(rng, d, shape, "bulk")
+    Pq2 = rh.klein_to_proj(kq2)
+    w2, v2 = rand_tangent(rng, Pq2, "tangent")
+    I = u.isometry_to(TangentVector(Point(Pq2.copy()), v2.copy()))
+    ik = np.asarray((I @ P).coords("klein"), dtype=float)
+    both = np.minimum(omr_p, r2.one_minus_r_klein(kq2))
+    judge_rows(mon, r2.dist_klein_ref(ik, kq2), r2.coord_tol(both), None,
+               "geodesic/towards/isometry_to-basepoint" + tag,
+               "p.unit_tangent_towards(q).isometry_to(tv2) @ p is not the basepoint of tv2",
+               lambda w: dict(case, row=w, image_klein=flat(ik)[w], expected_klein=flat(kq2)[w]))
+    run.note_class("towards-close", d, kind, ccls, mp, mq)
+
+
 T_CLASSES = ("zero", "tiny", "moderate", "large")
 
 
@@ -1067,6 +1419,114 @@ def wl_polygon(run, rng, idx):
         run.sample({"check": "polygon", "n": n, by: par, "dimension": dim})
 
 
+# ---------------------------------------------------------------------------
+# every n, not a handful (third seeding round, C13-r3-3)
+
+SWEEP_BLOCK = 4          # consecutive n per case
+SWEEP_DENSE = 300        # cases 0..299: n = 3..1202, every n; quick runs the first 100 (n <= 402)
+SWEEP_BOTH = 128         # quick: both paths for n <= 128, one (drawn per n) above
+
+
+def min_pair_distance(vk, chunk=256):
+    """smallest hyperbolic distance between two *different* vertices of one
+    polygon (Klein (n,d)): the closest pair in Klein coordinates is located by
+    brute force in chunks of rows, its distance taken with the reference formula
+    (vertices of a regular polygon are equidistant from the origin, where the
+    Klein chord is monotone in the distance)."""
+    n = vk.shape[0]
+    best, arg = np.inf, (0, 1)
+    for a in range(0, n, chunk):
+        blk = vk[a:a + chunk]
+        e = np.sum((blk[:, None, :] - vk[None, :, :]) ** 2, axis=-1)
+        e[np.arange(blk.shape[0]), a + np.arange(blk.shape[0])] = np.inf
+        e = np.where(np.isfinite(e), e, np.inf)
+        j = int(np.argmin(e))
+        if e.flat[j] < best:
+            best, arg = float(e.flat[j]), (a + j // n, j % n)
+    return float(r2.dist_klein_ref(vk[arg[0]], vk[arg[1]])), arg
+
+
+def wl_polygon_sweep(run, rng, idx):
+    """'for all n >= 3': every n from 3 to 402 in the quick tier (4 consecutive
+    n per case), to 1202 in the thorough tier plus n drawn from 1203..3000, on the
+    radius= and on the angle= path.  For each polygon: exactly n vertices, no
+    vertex twice (the smallest distance between two vertices is the side), equal
+    sides, equal radii; expected radius, side length, interior angle and
+    planarity through polygon_report (and, for the call itself, through the
+    regular_polygon postcondition).
+    C13-r3-3: rotation angles from np.arange(0, 2 pi, 2 pi/n) have n+1 entries
+    for a sparse set of n (61, 122, 197, 244, 343, ...), none of them below 25:
+    the first vertex comes twice, one side has length 0.  The same family:
+    anything in the construction that depends on n through floating point
+    (ceil/floor/round of 2 pi / step, accumulated angle n * step, integer
+    overflow or a lookup table for small n)."""
+    from geometry_tools.hyperbolic import Polygon
+    mon = run.monitor("polygon")
+    if idx < SWEEP_DENSE:
+        ns = [3 + SWEEP_BLOCK * idx + j for j in range(SWEEP_BLOCK)]
+    else:
+        ns = [int(rng.integers(3 + SWEEP_BLOCK * SWEEP_DENSE, 3001))]
+    for n in ns:
+        amax = r2.max_angle(n)
+        dim = 2 if n % 3 else 2 + (n // 3) % 4
+        if n <= SWEEP_BOTH or run.tier != "quick":
+            paths = ("radius", "angle")
+        else:
+            paths = (("radius", "angle")[int(rng.integers(2))],)
+        for by in paths:
+            if by == "angle":
+                # interior angle whose circumradius is <= 6.5 (cot(pi/n) grows like n)
+                lo = 2 * math.atan(1.0 / (math.tan(math.pi / n) * math.cosh(6.5))) * 1.01
+                par = float(max(rng.uniform(0.02, 0.98) * amax, lo))
+                R = float(r2.polygon_radius_ref(n, par))
+                a = par
+            else:
+                par = float(np.exp(rng.uniform(np.log(0.05), np.log(6.0))))
+                R = par
+                a = float(r2.polygon_angle_ref(n, par))
+            case = {"n": n, "by": by, "dimension": dim, "parameter": par, "class": "n-sweep"}
+            run.current_case = case
+            kw = {by: par if (n + idx) % 2 else np.float64(par)}
+            if dim != 2 or n % 2:
+                kw["dimension"] = dim
+            poly = Polygon.regular_polygon(n, **kw)
+            vk = np.asarray(poly.get_vertices().coords("klein"), dtype=float)
+            if not mon.require(vk.shape == (n, dim), "polygon/vertex-count/n-sweep",
+                               "regular_polygon(%d, %s=..., dimension=%d).get_vertices() has Klein "
+                               "coordinates of shape %r, expected %r" % (n, by, dim, vk.shape, (n, dim)),
+                               case):
+                continue
+            V = rh.klein_to_proj(vk)[None]
+            Rf = np.array([R])
+            af = np.array([a])
+            slack = 1.0 / (1.0 - a / amax) if by == "angle" else 1.0
+            rep = polygon_report(V, n, Rf, af)
+            what = {"radius": "vertices are not equidistant from the origin at the expected radius",
+                    "sides": "sides are not of the regular n-gon's length",
+                    "angle": "interior angle differs", "planar": "vertices do not span a 2-plane"}
+            witness = lambda w: dict(case, expected_radius=R, expected_angle=a,
+                                     vertices_klein=vk if n <= 64 else vk[:64])
+            for name, (err, tol) in rep.items():
+                judge_rows(mon, err, tol * slack, None, "polygon/%s/by-%s/n-sweep" % (name, by),
+                           what[name], witness)
+            ct = float(r2.coord_tol(1.0 - math.tanh(R)))
+            side = float(r2.polygon_side_ref(n, R))
+            ds = r2.dist_klein_ref(vk, np.roll(vk, -1, axis=0))
+            d0 = r2.dist_klein_ref(vk, np.zeros_like(vk))
+            judge_rows(mon, [np.ptp(d0)], 2 * ct * (1 + R), None, "polygon/equidistant/n-sweep",
+                       "vertices are not at equal distance from the origin", witness)
+            judge_rows(mon, [np.ptp(ds)], 4 * ct * (1 + R) * slack, None, "polygon/equal-sides/n-sweep",
+                       "sides are not of equal length", witness)
+            dmin, pair = min_pair_distance(vk)
+            judge_rows(mon, [max(side - dmin, 0.0)], 2 * ct * (1 + side) * slack, None,
+                       "polygon/distinct-vertices/n-sweep",
+                       "two vertices of the n-gon are closer to each other than its side "
+                       "(a vertex is repeated)",
+                       lambda w: dict(witness(w), closest_pair=list(pair), their_distance=dmin,
+                                      side=side))
+            run.note_class("polygon-sweep", n, by)
+
+
 def wl_formulas(run, rng, idx):
     from geometry_tools import hyperbolic as H
     mon = run.monitor("polygon")
@@ -1168,9 +1628,12 @@ WORKLOADS = [
     Workload("point_along-histories", wl_point_along_histories, quick=72, thorough=2880),
     Workload("origin_to", wl_origin, quick=144, thorough=17280),
     Workload("tangent", wl_tangent, quick=144, thorough=17280),
+    Workload("tangent-scales", wl_tangent_scales, quick=96, thorough=11520),
+    Workload("towards-close", wl_towards_close, quick=64, thorough=5760),
     Workload("point_along", wl_point_along, quick=192, thorough=23040),
     Workload("towards", wl_towards, quick=96, thorough=11520),
     Workload("angle", wl_angle, quick=96, thorough=11520),
     Workload("polygon", wl_polygon, quick=132, thorough=9504),
+    Workload("polygon-sweep", wl_polygon_sweep, quick=100, thorough=348),
     Workload("formulas", wl_formulas, quick=66, thorough=4752),
 ]
